@@ -16,7 +16,7 @@ RULE = ('histories: random interleavings of all 13 exported functions over all f
         'inventoried containers) and warm; every call: arguments deep-copied and compared after the call, returned lists scrambled by the '
         'harness, earlier calls repeated later in the same history and compared bit-for-bit; a subset of the distinct calls of each history '
         '(quick 1.5k, thorough 100k in total) is re-executed alone in a FRESH interpreter and compared bit-for-bit (float.hex). '
-        'Constants (pattern tables, origin tables, orientation lists) are fingerprinted before/after. distinct = distinct (function, args); '
+        'Every history contains a world-cell group and a large fan-out (4^6 / 4^7 ids from one call) with calls on the same id before and after it. Constants (pattern tables, origin tables, orientation lists) are fingerprinted before/after. distinct = distinct (function, args); '
         'non-trivial = calls compared against the fresh-interpreter oracle')
 ASSUMPTIONS = ['a fresh CPython process importing a5 from the same tree is the ground truth for "what a fresh interpreter would return"',
                'state rewind restores lists / dicts / instance dicts reachable from a5 module globals (depth 5)']
@@ -207,6 +207,15 @@ def run_history(a5, gen, state, fresh_mod, rew, spec, ctx, repo, pyc):
     wg = [('cell_to_boundary', [0]), ('cell_to_children', [0, 0]), ('cell_to_lonlat', [0]), ('get_res0_cells', []), ('cell_to_boundary', [0]),
           ('cell_to_children', [0, 0]), ('get_res0_cells', []), ('cell_to_parent', [0, -1]), ('get_resolution', [0])]
     groups.append(wg)
+    # a large fan-out (4^6 / 4^7 ids from one call) in every history, with geometry and hierarchy calls on the same id before and
+    # after it, back to back
+    rr_ = rnd.randint(0, 22)
+    cfo = gen.random_cell(rnd, a5, rr_)
+    up = rr_ + rnd.choice((6, 6, 7))
+    groups.append([('cell_to_lonlat', [cfo]), ('cell_to_children', [cfo, up]) if rnd.random() < 0.7 else ('uncompact', [[cfo], up]),
+                   ('cell_to_lonlat', [cfo]), ('cell_to_boundary', [cfo]), ('cell_to_children', [cfo, rr_ + 1]),
+                   ('cell_to_parent', [cfo, max(-1, rr_ - 1)]), ('get_resolution', [cfo])])
+    ctx.count('fan_out_groups')
     if mode == 'cold':
         rew.rewind()  # generation warmed the caches again
     results = {}
